@@ -68,6 +68,122 @@ fn bptree_enum_impl(nseq: u64, len: usize, name: &str) {
 		}
 		pool.push(k);
 	}
+	// FIXED SHAPES (deterministic, both key orders): fill with n keys, delete a run / a stride of them so that leaves merge
+	// and redistribute, then compare point lookups, the complete forward scan and the complete BACKWARD scan with the map
+	for version_order in [false, true] {
+		for &(n, vlen, shape) in &[(300usize, 100usize, 0usize), (300, 100, 1), (300, 100, 2), (120, 1500, 0), (120, 1500, 1)] {
+			use crate::LSMIterator as _;
+			cases += 1;
+			let dir = tempdir::TempDir::new("verif_c18f").unwrap();
+			let path = dir.path().join("tree.bpt");
+			let cmp: Arc<dyn Comparator> = if version_order { Arc::new(TimestampComparator::new(Arc::new(BytewiseComparator::default()))) } else { Arc::new(BytewiseComparator::default()) };
+			let mut tree = match new_disk_tree(&path, Arc::clone(&cmp)) {
+				Ok(t) => t,
+				Err(e) => {
+					failures.push(format!("{{\"fixed_shape\":{shape},\"mismatch\":\"create failed: {e}\"}}"));
+					continue;
+				}
+			};
+			let key = |i: usize| -> Vec<u8> {
+				if version_order {
+					InternalKey::new(format!("k{i:04}").into_bytes(), 7, InternalKeyKind::Set, 100).encode()
+				} else {
+					format!("key-of-sixteen-bytes-{i:04}").into_bytes()
+				}
+			};
+			let mut model: BTreeMap<Vec<u8>, Vec<u8>> = BTreeMap::new();
+			let mut bad: Option<String> = None;
+			for i in 0..n {
+				let v = vec![(i % 251) as u8; vlen];
+				if let Err(e) = tree.insert(&key(i), &v) {
+					bad = Some(format!("insert #{i} failed: {e}"));
+					break;
+				}
+				model.insert(key(i), v);
+			}
+			let doomed: Vec<usize> = match shape {
+				0 => (n / 5..2 * n / 3).collect(),             // a contiguous run in the middle
+				1 => (0..n).filter(|i| i % 2 == 1).collect(),  // every other key
+				_ => (0..n).filter(|i| *i < n / 3 || *i >= n - n / 4).collect(), // both ends
+			};
+			if bad.is_none() {
+				for &i in &doomed {
+					match tree.delete(&key(i)) {
+						Ok(Some(_)) => {
+							model.remove(&key(i));
+						}
+						Ok(None) => {
+							bad = Some(format!("delete #{i} found nothing"));
+							break;
+						}
+						Err(e) => {
+							bad = Some(format!("delete #{i} failed: {e}"));
+							break;
+						}
+					}
+				}
+			}
+			for round in 0..2 {
+				if bad.is_some() {
+					break;
+				}
+				if round == 1 {
+					let _ = tree.flush();
+					drop(tree);
+					tree = match new_disk_tree(&path, Arc::clone(&cmp)) {
+						Ok(t) => t,
+						Err(e) => {
+							bad = Some(format!("reopen failed: {e}"));
+							break;
+						}
+					};
+				}
+				let want: Vec<(Vec<u8>, Vec<u8>)> = model.iter().map(|(k, v)| (k.clone(), v.clone())).collect();
+				for i in 0..n {
+					let got = tree.get(&key(i)).map(|o| o.map(|b| b.to_vec())).map_err(|e| e.to_string());
+					if got != Ok(model.get(&key(i)).cloned()) {
+						bad = Some(format!("get #{i} (round {round}) = {:?}, the map holds {:?} bytes", got.map(|o| o.map(|v| v.len())), model.get(&key(i)).map(|v| v.len())));
+						break;
+					}
+				}
+				if bad.is_some() {
+					break;
+				}
+				for backward in [false, true] {
+					let walk = || -> std::result::Result<Vec<(Vec<u8>, Vec<u8>)>, String> {
+						let mut it = tree.internal_iterator();
+						let mut out = Vec::new();
+						let mut ok = if backward { it.seek_last() } else { it.seek_first() }.map_err(|e| e.to_string())?;
+						while ok && out.len() <= want.len() + 2 {
+							out.push((it.key().encoded().to_vec(), it.value_encoded().map_err(|e| e.to_string())?.to_vec()));
+							ok = if backward { it.prev() } else { it.next() }.map_err(|e| e.to_string())?;
+						}
+						if backward {
+							out.reverse();
+						}
+						Ok(out)
+					};
+					match walk() {
+						Err(e) => bad = Some(format!("{} scan (round {round}) failed: {e}", if backward { "backward" } else { "forward" })),
+						Ok(got) => {
+							if got != want {
+								bad = Some(format!("{} scan (round {round}) returns {} entries, the map holds {}", if backward { "backward" } else { "forward" }, got.len(), want.len()));
+							}
+						}
+					}
+					if bad.is_some() {
+						break;
+					}
+				}
+			}
+			nontrivial += 1;
+			if let Some(b) = bad {
+				if failures.len() < 5 {
+					failures.push(format!("{{\"key_order\":\"{}\",\"fixed_shape\":\"{n} keys with {vlen}-byte values, delete pattern {shape} (0 = middle run, 1 = every other key, 2 = both ends)\",\"mismatch\":{:?}}}", if version_order { "version" } else { "bytewise" }, b));
+				}
+			}
+		}
+	}
 	// VERIF_ONLY_SEQ=<n>: run only that sequence (both key orders) and print the complete operation trace
 	let only: Option<u64> = std::env::var("VERIF_ONLY_SEQ").ok().and_then(|s| s.parse().ok());
 	for version_order in [false, true] {
